@@ -75,6 +75,10 @@ func (c *ServerConn) ServeOnce(storageClient StorageClient, stats *Stats) (err e
 			if utils.VerifOn {
 				utils.Verif("p.panic", c.RemoteAddr, req.Cmd)
 			}
+			if c.rwc != nil && !req.NoReply {
+				writeLine(c.wbuf, "SERVER_ERROR internal error")
+				c.wbuf.Flush()
+			}
 		}
 		req.Clear()
 		if resp != nil {
